@@ -1,6 +1,7 @@
 // c18: correspondence harness for SubstituteParameters (property C18).
 // usage: c18 gen <out.jsonl> <n>     generate n cases (VERIF_SEED)
-//        c18 replay <case.json>      re-run one case on the implementation
+//
+//	c18 replay <case.json>      re-run one case on the implementation
 package main
 
 import (
@@ -11,14 +12,15 @@ import (
 	"reflect"
 	"strconv"
 	"strings"
+	"time"
 
 	intoto "github.com/in-toto/in-toto-golang/in_toto"
 	"verif/harness/lib"
 )
 
 type input struct {
-	Layout intoto.Layout `json:"layout"`
-	Names  []string      `json:"names"` // dictionary keys in the order given to the model
+	Layout intoto.Layout     `json:"layout"`
+	Names  []string          `json:"names"` // dictionary keys in the order given to the model
 	Dict   map[string]string `json:"dict"`
 	// Bytes: the strings of Layout and the values of Dict stand for BYTE strings that need not be valid UTF-8: every
 	// rune below 256 stands for that byte (so that the case survives its JSON file); observables are hex-encoded
@@ -267,7 +269,19 @@ func genCase(r *lib.Rng) (input, string) {
 	return input{Layout: l, Names: names, Dict: dict}, klass
 }
 
+// runImpl with a deadline: substitution is a single pass, it cannot take long; a call that does not return is a violation
 func runImpl(in input) string {
+	done := make(chan string, 1)
+	go func() { done <- runImplNow(in) }()
+	select {
+	case r := <-done:
+		return r
+	case <-time.After(20 * time.Second):
+		return "HANG(SubstituteParameters did not return within 20 s)"
+	}
+}
+
+func runImplNow(in input) string {
 	if in.Bytes {
 		raw := rawInput(in)
 		l := copyLayout(raw.Layout)
@@ -480,6 +494,21 @@ func main() {
 			}
 			w.Put(lib.Case{Klass: "bytes-not-utf8", Input: lib.MustJSON(in), Impl: runImpl(in), Oracle: oracle(in), CoqModel: coqModel(in),
 				Trivial: len(in.Dict) == 0})
+		}
+		// dictionaries whose values refer to each other or to themselves: values are not rescanned, so nothing loops or grows
+		for k, d := range []map[string]string{{"A": "{B}", "B": "{A}"}, {"A": "x{A}"}, {"A": "{A}"}, {"A": "foo-{B}.tar.gz", "B": "{A}"},
+			{"A": "{B}", "B": "{C}", "C": "{A}"}} {
+			var names []string
+			for _, n := range []string{"A", "B", "C"} {
+				if _, ok := d[n]; ok {
+					names = append(names, n)
+				}
+			}
+			l := intoto.Layout{Type: "layout", Steps: []intoto.Step{{Type: "step", SupplyChainItem: intoto.SupplyChainItem{Name: "s",
+				ExpectedMaterials: [][]string{{"ALLOW", "{A}"}}, ExpectedProducts: [][]string{{"CREATE", "out-{B}-{A}"}}}, ExpectedCommand: []string{"make", "{A}", "{C}"}}},
+				Inspect: []intoto.Inspection{{Type: "inspection", SupplyChainItem: intoto.SupplyChainItem{Name: "i", ExpectedProducts: [][]string{{"MATCH", "{A}", "WITH", "PRODUCTS", "FROM", "s"}}}, Run: []string{"sh", "-c", "echo {A} {B}"}}}}
+			in := input{Layout: l, Names: names, Dict: d}
+			w.Put(lib.Case{Klass: fmt.Sprintf("cyclic-values-%d", k), Input: lib.MustJSON(in), Impl: runImpl(in), Oracle: oracle(in), CoqModel: coqModel(in)})
 		}
 		// parameter names, exhaustively over single bytes: for every byte b the names "A"+b, b+"A" and b alone; a name is
 		// valid iff all its bytes are in [A-Za-z0-9_-] (bytes >= 0x80 never are); an invalid name is an error, a valid
